@@ -25,6 +25,9 @@ def main(argv):
             out[str(i)] = ctx.digest()
         print(json.dumps(out))
         return 0
+    if cmd == "childdigest":
+        from .worlds import repeat
+        return repeat.childdigest_main(argv[1])
     if cmd == "run1":
         # debugging aid: one run with its trace
         from . import batch
